@@ -506,12 +506,28 @@ fn item_call(m: &str, a: &[Value]) -> Value {
 }
 
 fn gen_call(m: &str, a: &[Value], st: Option<&Value>) -> Value {
-    let state: PushState = match st {
+    let mut state: PushState = match st {
         Some(s) => build(s),
         None => PushState::new(),
     };
     let cache = |v: &Value| InstructionCache::new(v.as_array().unwrap().iter().map(|x| x.as_str().unwrap().to_string()).collect());
     match m {
+        // the instruction CODE.RAND itself, handed the given instruction list (what the interpreter does with the list it is given)
+        "code_rand_instr" => {
+            let mut iset = InstructionSet::new();
+            iset.load();
+            state.int_stack.push(a[1].as_i64().unwrap() as i32);
+            let c = cache(&a[0]);
+            let before = state.code_stack.size();
+            if let Some(ins) = iset.get_instruction("CODE.RAND") {
+                (ins.execute)(&mut state, &c);
+            }
+            if state.code_stack.size() > before {
+                opt(state.code_stack.pop(), |it| item2j(&it))
+            } else {
+                none()
+            }
+        }
         "random_code" => opt(CodeGenerator::random_code(&state, &cache(&a[0]), us(&a[1])), |it| item2j(&it)),
         "random_code_with_size" => some(item2j(&CodeGenerator::random_code_with_size(&state, &cache(&a[0]), us(&a[1])))),
         "decompose" => {
